@@ -317,11 +317,17 @@ def subset_match(pat, obj):
 
 
 def load_known():
-    p = os.path.join(VERIF, "KNOWN_FINDINGS.json")
-    if not os.path.exists(p):
-        return []
-    with open(p) as f:
-        return [k for k in json.load(f).get("findings", []) if k.get("status", "open") == "open"]
+    """Open findings: KNOWN_FINDINGS.json plus per-family files known/<fam>.json (same format)."""
+    out = []
+    files = [os.path.join(VERIF, "KNOWN_FINDINGS.json")]
+    kd = os.path.join(VERIF, "known")
+    if os.path.isdir(kd):
+        files += [os.path.join(kd, f) for f in sorted(os.listdir(kd)) if f.endswith(".json")]
+    for p in files:
+        if os.path.exists(p):
+            with open(p) as f:
+                out += [k for k in json.load(f).get("findings", []) if k.get("status", "open") == "open"]
+    return out
 
 
 def match_known(known, prop, formula, node):
